@@ -333,6 +333,47 @@ func hasVisitedScan(ci ssa.CallInstruction, list ssa.Value) bool {
 	if sl, ok := base.(*ssa.Slice); ok {
 		base = canon(sl.X)
 	}
+	// the scan may live in a private boolean helper: if helper(x, list) { return error }
+	for _, c2 := range callsIn(fn) {
+		cl, ok := c2.(*ssa.Call)
+		if !ok || gp == nil {
+			continue
+		}
+		h := cl.Common().StaticCallee()
+		if h == nil || !gp.InModule(h) || h.Signature.Results().Len() != 1 || !isBoolType(h.Signature.Results().At(0).Type()) {
+			continue
+		}
+		li := -1
+		for i, a := range cl.Call.Args {
+			if sameLoc(a, base) || canon(a) == base {
+				li = i
+			}
+		}
+		if li < 0 || li >= len(h.Params) {
+			continue
+		}
+		// the helper loops over that parameter and can return true from inside the loop
+		loops := false
+		for _, b := range h.Blocks {
+			if !inLoop(b) {
+				continue
+			}
+			for _, in := range b.Instrs {
+				if ia, ok := in.(*ssa.IndexAddr); ok && canon(ia.X) == ssa.Value(h.Params[li]) {
+					loops = true
+				}
+			}
+		}
+		if !loops {
+			continue
+		}
+		t, _ := boolEdges(fn, cl)
+		for _, e := range t {
+			if okr, _ := returnsNonNilErrorFrom(e.To()); okr && cl.Block().Dominates(ci.Block()) {
+				return true
+			}
+		}
+	}
 	for _, b := range fn.Blocks {
 		if !inLoop(b) {
 			continue
@@ -459,68 +500,97 @@ func ruleC19Block(c *Checker) {
 			if !ok {
 				continue
 			}
-			name := p.FuncName(fn)
-			pos := p.Pos(cl.Pos())
-			arg := cl.Call.Args[0]
-			// (1) direct IsRegular guard
-			rt, _ := isRegularEdges(fn, nil)
-			if guarded(cl.Block(), rt) {
-				c.pass(R, name, "open guarded by IsRegular", pos, "the open lies past an IsRegular() true edge")
+			how, why := p.openGuardedAt(cl, cl.Call.Args[0], 3)
+			c.check(how != "", R, p.FuncName(fn), "open of a possibly special file", p.Pos(cl.Pos()), how, "a file that may be a fifo/device is opened: "+why)
+		}
+	}
+}
+
+// openGuardedAt decides the three guard forms for an opening call at the given
+// instruction (the open itself, or — when the open sits in a private helper
+// and is unguarded there — each call site of that helper).
+func (p *Prog) openGuardedAt(at *ssa.Call, arg ssa.Value, depth int) (string, string) {
+	fn := at.Parent()
+	// (1) direct IsRegular guard
+	rt, _ := isRegularEdges(fn, nil)
+	if guarded(at.Block(), rt) {
+		return "the open lies past an IsRegular() true edge", ""
+	}
+	// (2) stat form: reachable only over {stat error edge, IsRegular true edge} of a Stat/Lstat of the same path
+	for _, si := range callsTo(fn, func(o *types.Func) bool { return isFunc(o, "os", "Stat") || isFunc(o, "os", "Lstat") }) {
+		scl, ok := si.(*ssa.Call)
+		if !ok || !(sameLoc(scl.Call.Args[0], arg) || canon(scl.Call.Args[0]) == canon(arg)) {
+			continue
+		}
+		_, errE := okEdgesOfCall(scl)
+		fi := extractOf(scl, 0)
+		frt, _ := isRegularEdges(fn, func(m ssa.Value) bool {
+			mc, ok := m.(*ssa.Call)
+			return ok && mc.Call.IsInvoke() && mc.Call.Method.Name() == "Mode" && canon(mc.Call.Value) == fi
+		})
+		if guarded(at.Block(), append(append([]Edge{}, errE...), frt...)) {
+			return "the open is reachable only when Stat failed or reported a regular file", ""
+		}
+	}
+	// (3) flag-carried guard
+	why := "no IsRegular guard, Stat guard or body flag found on the way to the open"
+	for _, b := range fn.Blocks {
+		ifi, ok := b.Instrs[len(b.Instrs)-1].(*ssa.If)
+		if !ok {
+			continue
+		}
+		cond, neg := stripNot(ifi.Cond)
+		succ := 0
+		if neg {
+			succ = 1
+		}
+		if !guarded(at.Block(), []Edge{{b, succ}}) {
+			continue
+		}
+		if _, isPhi := cond.(*ssa.Phi); !isPhi {
+			if _, isEx := cond.(*ssa.Extract); !isEx {
 				continue
 			}
-			// (2) stat form: Open reachable only over {stat error edge, IsRegular true edge} of a Stat/Lstat of the same path
-			statOK := false
-			for _, si := range callsTo(fn, func(o *types.Func) bool { return isFunc(o, "os", "Stat") || isFunc(o, "os", "Lstat") }) {
-				scl, ok := si.(*ssa.Call)
-				if !ok || !sameLoc(scl.Call.Args[0], arg) {
-					continue
-				}
-				_, errE := okEdgesOfCall(scl)
-				// err == nil tested positively: `err == nil && !IsRegular` → the err != nil edge is the false edge of (err == nil)
-				fi := extractOf(scl, 0)
-				frt, _ := isRegularEdges(fn, func(m ssa.Value) bool {
-					mc, ok := m.(*ssa.Call)
-					return ok && mc.Call.IsInvoke() && mc.Call.Method.Name() == "Mode" && canon(mc.Call.Value) == fi
-				})
-				grp := append(append([]Edge{}, errE...), frt...)
-				if guarded(cl.Block(), grp) {
-					statOK = true
+		}
+		ok2, w := p.regularFlag(cond, b, map[ssa.Value]bool{})
+		if ok2 {
+			return "every way the body flag can be true carries an IsRegular() test", ""
+		}
+		why = w
+	}
+	// (4) the open sits in a private helper: every call site must be guarded
+	if depth > 0 && fn.Parent() == nil && (fn.Object() == nil || !fn.Object().Exported()) {
+		sites := p.callersOf(fn)
+		if len(sites) > 0 {
+			// which parameter is the path
+			idx := -1
+			for i, prm := range fn.Params {
+				if canon(arg) == ssa.Value(prm) {
+					idx = i
 				}
 			}
-			if statOK {
-				c.pass(R, name, "open guarded by Stat+IsRegular", pos, "the open is reachable only when Stat failed or reported a regular file")
-				continue
-			}
-			// (3) flag-carried guard
-			flagOK, why := false, "no IsRegular guard, Stat guard or body flag found on the way to the open"
-			for _, b := range fn.Blocks {
-				ifi, ok := b.Instrs[len(b.Instrs)-1].(*ssa.If)
+			all := true
+			for _, s := range sites {
+				sc, ok := s.(*ssa.Call)
 				if !ok {
+					all = false
 					continue
 				}
-				cond, neg := stripNot(ifi.Cond)
-				succ := 0
-				if neg {
-					succ = 1
+				a2 := arg
+				if idx >= 0 && idx < len(sc.Call.Args) {
+					a2 = sc.Call.Args[idx]
 				}
-				if !guarded(cl.Block(), []Edge{{b, succ}}) {
-					continue
-				}
-				if _, isPhi := cond.(*ssa.Phi); !isPhi {
-					if _, isEx := cond.(*ssa.Extract); !isEx {
-						continue
-					}
-				}
-				ok2, w := p.regularFlag(cond, b, map[ssa.Value]bool{})
-				if ok2 {
-					flagOK = true
-				} else {
+				if how, w := p.openGuardedAt(sc, a2, depth-1); how == "" {
+					all = false
 					why = w
 				}
 			}
-			c.check(flagOK, R, name, "open guarded by regular-file flag", pos, "every way the body flag can be true carries an IsRegular() test", "a file that may be a fifo/device is opened: "+why)
+			if all {
+				return "the open sits in a private helper every call of which is guarded", ""
+			}
 		}
 	}
+	return "", why
 }
 
 // ---------- C19.panics (inventory) ----------
@@ -718,6 +788,24 @@ func pushedIsCompared(ci ssa.CallInstruction, ap *ssa.Call) bool {
 				for _, o := range ops {
 					compared[canon(o)] = true
 				}
+			}
+		}
+	}
+	// a scanning helper called with the list: its other arguments are what the elements are compared with
+	for _, c2 := range callsIn(fn) {
+		cl, ok := c2.(*ssa.Call)
+		if !ok {
+			continue
+		}
+		takes := false
+		for _, a := range cl.Call.Args {
+			if sameLoc(a, base) || canon(a) == base {
+				takes = true
+			}
+		}
+		if takes && cl.Common().StaticCallee() != nil {
+			for _, a := range cl.Call.Args {
+				compared[canon(a)] = true
 			}
 		}
 	}
